@@ -1,7 +1,8 @@
 """Planted example for C21.R1 (never imported, never executed; parsed by sa/props/c21.py on every run).
 
-`BorrowingStore` borrows `_shared_conn` from whoever created it.  `load` and `save` close a connection that may be
-the borrowed one (must be reported); `load_guarded` and `load_identity` close only what they own (must be accepted).
+`BorrowingStore` borrows `_shared_conn` from whoever created it.  `load`, `save` and the helper `_drop` (called from
+`load_via_bad_helper`) close a connection that may be the borrowed one (must be reported); `load_guarded`,
+`load_identity` and the helper `_release` (called from `load_via_helper`) close only what they own (must be accepted).
 """
 
 import sqlite3
@@ -50,3 +51,24 @@ class BorrowingStore:
         finally:
             if owns:
                 conn.close()
+
+    def _release(self, conn):
+        if conn is not self._shared_conn:
+            conn.close()
+
+    def load_via_helper(self):
+        conn = self._connect()
+        try:
+            return conn.execute("SELECT 1").fetchone()
+        finally:
+            self._release(conn)
+
+    def _drop(self, conn):
+        conn.close()  # planted: one call deep, still the borrowed connection
+
+    def load_via_bad_helper(self):
+        conn = self._connect()
+        try:
+            return conn.execute("SELECT 1").fetchone()
+        finally:
+            self._drop(conn)
